@@ -35,6 +35,7 @@ func main() {
 	statsFile := fs.String("stats", "", "write generator statistics (JSON) here")
 	onlyCorpus := fs.Bool("only-corpus", false, "run the corpus lines and stop (replay)")
 	fs.StringVar(&workDir, "work", "", "scratch directory for this run")
+	shard := fs.String("shard", "0/1", "i/n: emit only the cases whose key hashes to shard i of n")
 	fs.StringVar(&repoDir, "repo", "/repo", "a-h/templ checkout")
 	_ = fs.Parse(os.Args[2:])
 	f, ok := engines[name]
@@ -51,6 +52,10 @@ func main() {
 	e := newEmitter(w, name)
 	e.corpusFile = *corpus
 	e.onlyCorpus = *onlyCorpus
+	fmt.Sscanf(*shard, "%d/%d", &e.shard, &e.nshards)
+	if e.nshards < 1 {
+		e.nshards = 1
+	}
 	f(e, *tier, *seed)
 	w.Flush()
 	if *statsFile != "" {
